@@ -1,14 +1,83 @@
-/- Props/C01.lean — semantics theorems of the reference interpreter's integer operators (extended below) -/
-import FerretVerif.Core.Eval
+/-
+  Props/C01.lean — C01: what is kernel-checked about "the source program's defined semantics".
+
+  `Core/Eval.lean` is the reference interpreter the native executables are compared with (checks/c01.py).
+  The theorems pin down that its operators ARE the semantics the property states: fixed-width two's-complement
+  integers wrapping at their declared width, truncating division and remainder, left-to-right evaluation,
+  by-value composites and write-through references.  The lowering chain of the compiler itself is not modelled.
+-/
+import FerretVerif.Proofs.CoreSem
+
 namespace FerretVerif.C01
 open FerretVerif.Core
 
-/-- wrapping lands in the type's range -/
-theorem wrap_unsigned_range (bits : Nat) (v : Int) : 0 ≤ wrapInt bits false v ∧ wrapInt bits false v < (2 ^ bits : Nat) := by
-  unfold wrapInt
-  have hp : (0 : Int) < ((2 ^ bits : Nat) : Int) := by
-    have := Nat.pow_pos (n := bits) (by decide : 0 < 2); omega
-  simp only [Bool.false_and, Bool.false_eq_true, if_false]
-  exact ⟨Int.emod_nonneg _ (by omega), Int.emod_lt_of_pos _ hp⟩
+/-- wrapping lands in the declared range (unsigned / signed two's complement) … -/
+theorem wrap_unsigned_range (bits : Nat) (v : Int) :
+    0 ≤ wrapInt bits false v ∧ wrapInt bits false v < ((2 ^ bits : Nat) : Int) := wrapInt_unsigned_range bits v
+theorem wrap_signed_range {bits : Nat} (h : 1 ≤ bits) (v : Int) :
+    -((2 ^ (bits - 1) : Nat) : Int) ≤ wrapInt bits true v ∧ wrapInt bits true v < ((2 ^ (bits - 1) : Nat) : Int) :=
+  wrapInt_signed_range h v
+/-- … changes the value only by a multiple of 2^bits, and is the UNIQUE such value in range -/
+theorem wrap_congruent (bits : Nat) (s : Bool) (v : Int) : (wrapInt bits s v - v) % ((2 ^ bits : Nat) : Int) = 0 :=
+  wrapInt_congr bits s v
+theorem wrap_unique {bits : Nat} (h : 1 ≤ bits) (s : Bool) (v r : Int)
+    (hr : InRange bits s r) (hc : (r - v) % ((2 ^ bits : Nat) : Int) = 0) : r = wrapInt bits s v := wrapInt_unique h s v r hr hc
+
+/-- + - * are the mathematical operation reduced to the declared width -/
+theorem arith_wraps (bits : Nat) (s : Bool) (a b : Int) :
+    evalIntBin .add bits s a b = pure (.int (wrapInt bits s (a + b))) ∧
+    evalIntBin .sub bits s a b = pure (.int (wrapInt bits s (a - b))) ∧
+    evalIntBin .mul bits s a b = pure (.int (wrapInt bits s (a * b))) := ⟨rfl, rfl, rfl⟩
+
+/-- division truncates toward zero, the remainder takes the sign of the dividend and |rem| < |divisor| -/
+theorem div_truncates (bits : Nat) (s : Bool) (a b : Int) (hb : b ≠ 0) :
+    evalIntBin .div bits s a b = pure (.int (wrapInt bits s (Int.tdiv a b))) ∧
+    evalIntBin .rem bits s a b = pure (.int (wrapInt bits s (Int.tmod a b))) ∧
+    Int.tdiv a b * b + Int.tmod a b = a ∧ (Int.tmod a b).natAbs < b.natAbs :=
+  ⟨Core.div_truncates bits s a b hb, rem_truncates bits s a b hb, tdiv_trem_spec a b, trem_abs_lt a b hb⟩
+theorem rem_sign_of_dividend (a b : Int) : (0 ≤ a → 0 ≤ Int.tmod a b) ∧ (a ≤ 0 → Int.tmod a b ≤ 0) := Core.rem_sign_of_dividend a b
+/-- INT_MIN / -1 wraps to INT_MIN (the compiled code traps instead: known finding, probe min-div-minus-one) -/
+theorem min_div_minus_one : wrapInt 32 true (Int.tdiv (-2147483648) (-1)) = -2147483648 := Core.min_div_minus_one
+
+/-- comparisons are the order of the (already wrapped) values: signedness lives in the value -/
+theorem cmp_is_order (bits : Nat) (s : Bool) (a b : Int) :
+    evalIntBin .lt bits s a b = pure (.bool (decide (a < b))) ∧
+    evalIntBin .le bits s a b = pure (.bool (decide (a ≤ b))) := ⟨(Core.cmp_is_order bits s a b).1, (Core.cmp_is_order bits s a b).2.1⟩
+
+/-- LEFT-TO-RIGHT: a binary expression evaluates its left operand first, then the right one in the state the
+    left one left behind; if the left one aborts, the right one is never evaluated -/
+theorem eval_left_to_right (ctx : Ctx) (fuel : Nat) (env : Env) (op : BinOp) (t : Ty) (a b : Expr) :
+    evalE ctx (fuel + 1) env (.bin op t a b) = (do
+      let va ← derefVal 8 (← evalE ctx fuel env a)
+      let vb ← derefVal 8 (← evalE ctx fuel env b)
+      combineBin op t va vb) := evalE_bin ctx fuel env op t a b
+theorem eval_left_abort_skips_right (ctx : Ctx) (fuel : Nat) (env : Env) (op : BinOp) (t : Ty) (a b : Expr)
+    (s s' : St) (x : Abort) (h : (evalE ctx fuel env a).run s = (.error x, s')) :
+    (evalE ctx (fuel + 1) env (.bin op t a b)).run s = (.error x, s') := evalE_bin_abort_left ctx fuel env op t a b s s' x h
+/-- arguments are evaluated in list order -/
+theorem args_left_to_right (ctx : Ctx) (fuel : Nat) (env : Env) (a : Expr) (as : List Expr) :
+    evalArgs ctx (fuel + 1) env (a :: as) = (do
+      let v ← evalE ctx fuel env a
+      let vs ← evalArgs ctx fuel env as
+      pure (v :: vs)) := evalArgs_cons ctx fuel env a as
+
+/-- BY-VALUE composites: after a successful write at a path, reading that path gives the written value and any
+    path that diverges from it (another field / another index, at any depth) is unchanged -/
+theorem composite_write_then_read {v : Val} {p : List Seg} {nv v' : Val} {s s' : St}
+    (h : (setPath v p nv).run s = (.ok v', s')) (t : St) : (getPath v' p).run t = (.ok nv, t) := getPath_setPath_same h t
+theorem composite_write_frames_others {v : Val} (pre : List Seg) {s1 s2 : Seg} {p q : List Seg} {nv v' : Val}
+    {s s' : St} (h : (setPath v (pre ++ s1 :: p) nv).run s = (.ok v', s')) (hne : s1 ≠ s2) (t : St) :
+    (getPath v' (pre ++ s2 :: q)).run t = (getPath v (pre ++ s2 :: q)).run t := getPath_setPath_disjoint pre h hne t
+/-- variables are independent cells … -/
+theorem write_other_cell_unchanged {n m : Nat} {p q : List Seg} {nv : Val} {s s' : St}
+    (h : (writeLoc ⟨.cell n, p⟩ nv).run s = (.ok (), s')) (hne : m ≠ n) :
+    (readLoc ⟨.cell m, q⟩).run s' = (((readLoc ⟨.cell m, q⟩).run s).1, s') := readLoc_writeLoc_other_cell h hne
+/-- … and a reference (a location) WRITES THROUGH: what was written at the referent is what the reference reads -/
+theorem ref_write_through {l : Loc} {nv : Val} {s s' : St} (k : Nat)
+    (h : (writeLoc l nv).run s = (.ok (), s')) (hnv : ∀ l', nv ≠ .ref l') :
+    (derefVal (k + 1) (.ref l)).run s' = (.ok nv, s') := derefVal_ref_after_write k h hnv
+
+-- concrete instances
+example : wrapInt 32 true (2147483647 + 1) = -2147483648 ∧ wrapInt 8 false (200 + 100) = 44 ∧ wrapInt 8 true 300 = 44 := by decide
 
 end FerretVerif.C01
